@@ -315,6 +315,9 @@ func runC12(c *eng.Ctx) {
 	// ---- R14.6 the group errors reach FetchConsumerGroupAssignments' identity tests unwrapped
 	nSent := ruleSentinelIdentity(c, "R14.6", []string{"server.(*apiServer).FetchConsumerGroupAssignments"}, "a member is not told that it lost membership / the coordinator moved / its epoch is stale, and keeps consuming partitions that now belong to someone else")
 	c.Check(nSent >= 4, "group sentinels resolved", "", "identity comparisons with the consumer-group sentinels resolved to their producers", "fewer identity comparisons with group sentinels than on the reference tree")
+	// ---- R15.8 (shared) the configuration keys this property's switches hang on reach their fields
+	ruleConfigWiring(c, "R15.8")
+
 }
 
 // freeVarNamed matches a variable captured from the enclosing function: Strip resolves a single-store captured cell to the
